@@ -76,7 +76,7 @@ def through(tr, leaves, depth=0):
         if depth < 4 and l.kind == "agg" and l.detail[0] == "adt" and l.detail[2] == "Some":
             st = tr.b.blocks[l.detail[3]]["s"][l.detail[4]]
             out |= through(tr, tr.operand(st["rv"]["ops"][0]), depth + 1)
-        elif depth < 4 and l.kind == "call" and l.detail[0].rsplit("::", 1)[-1] in ("unwrap", "expect", "unwrap_or_else", "unwrap_or", "unwrap_or_default", "cloned", "copied"):
+        elif depth < 4 and l.kind == "call" and l.detail[0].rsplit("::", 1)[-1] in ("unwrap", "expect", "unwrap_or_else", "unwrap_or", "unwrap_or_default", "cloned", "copied", "filter"):
             t = tr.b.term(l.detail[2])
             for x in through(tr, tr.operand(t["args"][0]), depth + 1):
                 out.add(type(x)((x.kind, x.detail, tuple(x.projs) + tuple(l.projs))))
@@ -150,12 +150,109 @@ def node_arm(cn, crate, variant):
 
 # --------------------------------------------------------------------------------------------------------------- SCOPE
 
+ADAPTERS = ("and_then", "map", "is_some_and", "map_or", "map_or_else", "or_else", "find_map", "filter_map")
+SCOPE_OF_FIELD = {".set_variables": "assignments", ".context": "context", ".global_context": "global", ".include_parent": "includer", ".for_loops": "loops"}
+
+
+def _closures_passed(body, tr, t):
+    out = []
+    for a in t["args"][1:]:
+        for l in tr.operand(a):
+            if l.kind == "agg" and l.detail[0] == "closure":
+                st = body.blocks[l.detail[3]]["s"][l.detail[4]]
+                out.append(st["rv"]["def"])
+    return out
+
+
+def _scope_field(crate, body, leaves):
+    """the scope field of State (on the root function's self) that the leaves derive from, resolving closure captures"""
+    from props.c07 import resolve_upvars
+    ls = resolve_upvars(crate, body, leaves, set(TRANSPARENT_CALLS) | {"core::slice::<impl [T]>::iter", "std::iter::Iterator::rev"})
+    fs = set()
+    for l in ls:
+        if l.kind != "param":
+            continue
+        f = [p for p in l.projs if p in SCOPE_OF_FIELD]
+        fs.add(f[0] if l.detail == 1 and f else None)
+    return next(iter(fs)) if len(fs) == 1 else None
+
+
+def closure_scopes(crate, cb, depth=0):
+    """scope lookups performed inside closure cb: a set of scope names; 'arg' stands for "a lookup on the closure's own argument" (its
+    scope is that of the receiver the adapter was applied to). None when the closure does something the rule does not understand."""
+    tr = Tracer(cb, transparent=set(TRANSPARENT_CALLS) | {"core::slice::<impl [T]>::iter", "std::iter::Iterator::rev"})
+    out = set()
+    for bb, t in cb.calls():
+        cd = callee_def(t)
+        if cd.endswith("for_loop::ForLoop::get"):
+            out.add("loops")
+        elif GET_VALUE in callee_names(t) or cd.endswith("::get_value"):
+            out.add("arg:get_value")
+        elif is_map_get(t):
+            f = _scope_field(crate, cb, tr.operand(t["args"][0]))
+            ls = tr.operand(t["args"][0])
+            if f:
+                out.add(SCOPE_OF_FIELD[f])
+            elif ls and all(l.kind == "param" and l.detail >= 2 for l in ls):
+                out.add("arg")
+            else:
+                return None
+        elif cd.rsplit("::", 1)[-1] in ADAPTERS and len(t["args"]) >= 2 and depth < 3:
+            f = _scope_field(crate, cb, tr.operand(t["args"][0]))
+            for c in _closures_passed(cb, tr, t):
+                sub = closure_scopes(crate, crate.bodies[c], depth + 1) if c in crate.bodies else None
+                if sub is None:
+                    return None
+                for k in sub:
+                    if k == "arg":
+                        if not f:
+                            return None
+                        out.add(SCOPE_OF_FIELD[f])
+                    elif k == "arg:get_value":
+                        if f != ".include_parent":
+                            return None
+                        out.add("includer")
+                    else:
+                        out.add(k)
+    return out
+
+
+def closure_scopes_at(crate, b, tr, bb, t):
+    """scopes looked up by the closure(s) of the adapter call t in the root body b; None if there is none / not understood"""
+    cls = [c for c in _closures_passed(b, tr, t) if c in crate.bodies]
+    if not cls:
+        return None
+    ltr = Tracer(b, transparent=set(TRANSPARENT_CALLS) | {"core::slice::<impl [T]>::iter", "std::iter::Iterator::rev"})
+    f = _scope_field(crate, b, ltr.operand(t["args"][0]))
+    out = set()
+    for c in cls:
+        sub = closure_scopes(crate, crate.bodies[c])
+        if sub is None:
+            return None
+        for k in sub:
+            if k == "arg":
+                if not f:
+                    return None
+                out.add(SCOPE_OF_FIELD[f])
+            elif k == "arg:get_value":
+                if f != ".include_parent":
+                    return None
+                out.add("includer")
+            elif k == "loops":
+                if f != ".for_loops":
+                    return None
+                out.add("loops")
+            else:
+                out.add(k)
+    return out or None
+
 def check_scope(crate, rep, cfg):
     b = crate.one(GET_VALUE)
     rep.analysed(b)
     tr = Tracer(b)
     sites = {}
     helper_bodies = []
+    lazy_fallbacks = {}
     for bb, t in b.calls():
         cd = callee_def(t)
         if cd.endswith("for_loop::ForLoop::get"):
@@ -192,6 +289,14 @@ def check_scope(crate, rep, cfg):
                             "global" if f and all(x and x[:1] == (".global_context",) for x in f) else "other-map"
                         sites.setdefault(k2, []).append(bb)
             helper_bodies.append(h)
+        elif cd.rsplit("::", 1)[-1] in ADAPTERS and len(t["args"]) >= 2 and closure_scopes_at(crate, b, tr, bb, t) is not None:
+            # lookups performed by the closure handed to an Option / iterator adapter count as performed at the adapter call:
+            # `for_loops.iter().rev().find_map(|fl| fl.get(name))`, `include_parent.map(|p| p.get_value(name))`,
+            # `<context lookup>.or_else(|| self.global_context.and_then(|g| g.data.get(name)))`
+            for k2 in closure_scopes_at(crate, b, tr, bb, t):
+                sites.setdefault(k2, []).append(bb)
+                if k2 == "global" and cd.endswith("::or_else"):
+                    lazy_fallbacks[bb] = t
         elif cd.rsplit("::", 1)[-1] in ("and_then", "map", "is_some_and", "map_or", "map_or_else") and "Option" in cd and len(t["args"]) >= 2:
             # `self.global_context.and_then(|g| g.data.get(name))`: a map lookup inside the closure belongs to the scope of the receiver field
             f = self_fields(tr, t["args"][0])
@@ -221,7 +326,7 @@ def check_scope(crate, rep, cfg):
             rep.add("C03.SCOPE", "C03.SCOPE:get_value:order:%s<%s" % (order[i], order[j]), ok, b.where(c), "the %s lookup comes before the %s lookup on every path (never after it)"
                     % (order[i], order[j]) + ("" if ok else " — VIOLATED: name resolution order changed"))
     walk_heads = [bb for bb, t in b.calls() if callee_def(t).endswith("Iterator::next") and s["loops"] in b.reach_from(bb)] or \
-        ([s["loops"]] if helper_bodies else [])
+        ([s["loops"]] if helper_bodies or callee_def(b.term(s["loops"])).rsplit("::", 1)[-1] in ADAPTERS else [])
     for a, c in (("loops", "assignments"), ("assignments", "context"), ("context", "global")):
         ok = b.dominates(s[a], s[c]) if a != "loops" else (bool(walk_heads) and all(b.dominates(h, s[c]) for h in walk_heads))
         rep.add("C03.SCOPE", "C03.SCOPE:get_value:dominates:%s<%s" % (a, c), ok, b.where(s[c]), "the %s lookup is always tried before the %s lookup is reached" % (a, c)
@@ -250,7 +355,26 @@ def check_scope(crate, rep, cfg):
             if any(a["k"] == "const" and str(a.get("fn", "")).endswith("Value::undefined") for a in st["args"][1:]):
                 undefined_tail.append(bb)
         leaves = through(tr, leaves)
+        # `<lookup>.or_else(|| <next scope's lookup>)`: the receiver's hit is the answer, the closure runs only on a miss (lazy)
+        for _ in range(3):
+            more = set()
+            for l in leaves:
+                if l.kind == "call" and l.detail[2] in lazy_fallbacks:
+                    more |= through(tr, tr.operand(lazy_fallbacks[l.detail[2]]["args"][0]))
+            if more <= leaves:
+                break
+            leaves = leaves | more
         srcs = {k for k in order for l in leaves if l.kind == "call" and l.detail[2] == s[k]}
+        if len(srcs) == 2 and any(l.kind == "call" and l.detail[2] in lazy_fallbacks for l in leaves):
+            first, second = sorted(srcs, key=order.index)
+            chained = s[second] in lazy_fallbacks and any(l.kind == "call" and l.detail[2] == s[first]
+                                                          for l in through(tr, tr.operand(lazy_fallbacks[s[second]]["args"][0])))
+            if chained and order.index(second) == order.index(first) + 1:
+                seen_from |= {first, second}
+                rep.ok("C03.SCOPE", "C03.SCOPE:get_value:hit-returns:%s" % first, b.where(bb), "a hit in the %s scope is the receiver of or_else: the %s lookup "
+                       "runs only on a miss" % (first, second))
+                rep.ok("C03.SCOPE", "C03.SCOPE:get_value:hit-returns:%s" % second, b.where(bb), "a hit in the %s scope is returned without consulting another scope" % second)
+                continue
         if len(srcs) != 1:
             rep.bad("C03.SCOPE", "C03.SCOPE:get_value:return-source", b.where(bb), "a return value of get_value does not come from exactly one scope lookup: %s"
                     % sorted(leaf_str(l) for l in leaves)[:3])
